@@ -9,6 +9,7 @@ import Qv.Drv.C02
 import Qv.Drv.C07
 import Qv.Drv.C08
 import Qv.Drv.C13
+import Qv.Drv.C06
 /-! Line protocol: `<op> <json>` per line in, one JSON document per line out. -/
 open Lean
 
@@ -27,7 +28,10 @@ def handlers : List (String × (Json → Except String Json)) := [
   ("C07.super", Qv.Drv.C07.superJ),
   ("C07.liouvillian", Qv.Drv.C07.liouvJ),
   ("C08.shuffle", Qv.Drv.C08.shuffleJ),
-  ("C13.read_seed", Qv.Drv.C13.readSeedJ)
+  ("C13.read_seed", Qv.Drv.C13.readSeedJ),
+  ("C06.call", Qv.Drv.C06.callJ),
+  ("C06.inter", Qv.Drv.C06.interJ),
+  ("C06.func_args", Qv.Drv.C06.funcArgsJ)
 ]
 
 def handle (line : String) : String :=
